@@ -86,10 +86,12 @@ def post_for(kind, mode, n):
     return '\n'.join(l for l in out if 'placeholder' not in l)
 
 REORDER_STUB = {TK + '::reorder_incident_halffaces': '''{
-  /* contract (verified for the real function in obligations/reorder.py): no effect unless edge and face
-     bottom-up incidences are both enabled; otherwise the two incident-halfface lists of the edge are permuted */
-  if (!(self->e_bottom_up_ && self->f_bottom_up_)) return;
-  __CPROVER_assert(_eh.idx_ >= 0 && (unsigned long)(2 * _eh.idx_ + 1) < self->incident_hfs_per_he_.size, "reorder_incident_halffaces.requires: edge handle in range of the edge cache");
+  /* contract (verified for the real function in obligations/reorder.py):
+     requires both containers it indexes to be populated (callers must test both incidence kinds);
+     ensures the two incident-halfface lists of the edge are permuted and nothing else changes */
+  __CPROVER_assert(self->incident_hfs_per_he_.size == 2 * self->edges_.size && self->incident_cell_per_hf_.size == 2 * self->faces_.size,
+                   "reorder_incident_halffaces.requires: halfedge->halfface AND halfface->cell incidences are populated (it indexes both containers)");
+  __CPROVER_assert(_eh.idx_ >= 0 && (unsigned long)_eh.idx_ < self->edges_.size, "reorder_incident_halffaces.requires: edge handle in range");
   reorder_contract_effect(self, _eh.idx_);
 }'''}
 
